@@ -125,9 +125,71 @@ theorem autoResolve_total_read {H : Bytes → Str} (hH : HexOut H) {N : Str → 
   obtain ⟨c', hc'⟩ := autoResolve_read_unchanged hH hcf inv hS hpre h hr
   exact ⟨st', ord', c', h, inv', hS', hc'⟩
 
+theorem snapshot_fold_no_panic {H : Bytes → Str} (hH : HexOut H) {N : Str → Rev → Prop} {S : JObj → Prop} {src : Src}
+    (hcf : CollisionFree H S) {st0 : DState} {ord0 : Str → Rev → List JVal}
+    (hpre0 : ∀ p ∈ st0.p.docs, isArrayDescriptor p.1 = true → ∀ w, p.2.winner = some w →
+      (∀ d, N p.1 (Rev.upd H d w)) ∧ (∀ d, ∀ e ∈ p.2.entries, e.rev ≠ Rev.upd H d w) ∧
+      S [(ORDER_FIELD, .arr (visible (ord0 p.1) p.2 w))]) (m : String) :
+    ∀ (ps : List (Str × RevTree)) (st : DState) (ord : Str → Rev → List JVal),
+      ps.Pairwise (fun a b => a.1 ≠ b.1) → ReadInv N src st ord → StoreOK H src S st →
+      (∀ r x, readObject src st0 r = .ok x → readObject src st r = .ok x) →
+      C12.All₂ (DocLink ord0 ord) st0.p.docs st.p.docs →
+      (∀ p ∈ ps, p ∈ st0.p.docs ∧ st.treeOf p.1 = some p.2 ∧ ord p.1 = ord0 p.1) →
+      ps.foldl (snapStep H src) (.ok st) ≠ .panic m := by
+  intro ps
+  induction ps with
+  | nil =>
+    intro st ord _ _ _ _ _ _
+    exact fun h => nomatch h
+  | cons p ps ih =>
+    intro st ord hpw inv hS hr hl hpend
+    obtain ⟨u, t⟩ := p
+    obtain ⟨hne, hpw'⟩ := List.pairwise_cons.mp hpw
+    obtain ⟨hm0, htree, hord⟩ := hpend (u, t) (by simp)
+    have htree' : st.treeOf u = some t := htree
+    have hord' : ord u = ord0 u := hord
+    rw [List.foldl_cons]
+    by_cases hu : isArrayDescriptor u = true
+    · have hpre : ∀ w, t.winner = some w → (∀ d, N u (Rev.upd H d w)) ∧
+          (∀ d, ∀ e ∈ t.entries, e.rev ≠ Rev.upd H d w) ∧ S [(ORDER_FIELD, .arr (visible (ord u) t w))] := by
+        rw [hord']; exact hpre0 (u, t) hm0 hu
+      rcases snapStep_array hH inv hS hcf hu htree' hpre with h1 | ⟨e, h1⟩ |
+        ⟨st1, t', o', w, rev, h1, ts, hS1, hdocs, hw, hdw, hw', hdr, hvis⟩
+      · rw [h1]
+        exact ih st ord hpw' inv hS hr hl (fun p' hp' => hpend p' (List.mem_cons_of_mem _ hp'))
+      · rw [h1, fold_snapStep_err]; exact fun h => nomatch h
+      · rw [h1]
+        obtain ⟨l1, l2⟩ := docLink_step (ord0 := ord0) (ord := ord) (o' := o') hu hw hw' (hdr.trans hdw.symm) (fun _ => hvis)
+        refine ih st1 (upd1 ord u o') hpw' (readInv_step inv hu htree' ts) hS1
+          (fun r x hx => ts.reads r x (hr r x hx)) ?_ ?_
+        · rw [hdocs]
+          exact all₂_setTree' hl inv.sorted htree' l1 l2
+        · intro p' hp'
+          obtain ⟨a, b, c⟩ := hpend p' (List.mem_cons_of_mem _ hp')
+          have hk : p'.1 ≠ u := fun e => hne p' hp' e.symm
+          exact ⟨a, by rw [ts.other _ hk]; exact b, by rw [upd1_other _ _ _ hk]; exact c⟩
+    · have hu' : isArrayDescriptor u = false := by simpa using hu
+      rw [snapStep_plain H src st (p := (u, t)) hu']
+      exact ih st ord hpw' inv hS hr hl (fun p' hp' => hpend p' (List.mem_cons_of_mem _ hp'))
+
+
+/-- **`stage_full_snapshot` never aborts**: from a state satisfying `ReadInv` with the preconditions `SnapPre`
+    (the hypotheses of `C12b.snapshot_read`) its outcome is `.ok` or an error, never `.panic` -/
+theorem snapshot_no_panic {H : Bytes → Str} (hH : HexOut H) {N : Str → Rev → Prop} {S : JObj → Prop} {src : Src}
+    {st : DState} {ord : Str → Rev → List JVal} (hcf : CollisionFree H S) (inv : ReadInv N src st ord)
+    (hS : StoreOK H src S st) (hpre : SnapPre H N S st ord) (m : String) :
+    snapshot H src st ≠ .panic m := by
+  rw [snapshot_eq]
+  exact snapshot_fold_no_panic hH hcf hpre m st.p.docs st ord (keys_pairwise_ne inv.sorted) inv hS (fun _ _ h => h)
+    (C12.forall₂_refl (DocLink.refl ord) _)
+    (fun p hp => ⟨hp, C04b.treeOf_of_mem inv.sorted hp, rfl⟩)
+
 /-- non-vacuity: the concrete replica of `C12b.Ex` (a flattened array in conflict: two concurrent delta
     revisions on a full one) satisfies every hypothesis of `autoResolve_total` -/
 example : ∃ st', autoResolve Ex.Hy C04b.src0 Ex.stX = .ok st' :=
   autoResolve_total Ex.hexOut_Hy Ex.cfX Ex.invX Ex.storeX Ex.autoPreX
+
+example : ∀ m, snapshot Ex.Hy C04b.src0 Ex.stX ≠ .panic m :=
+  snapshot_no_panic Ex.hexOut_Hy Ex.cfX Ex.invX Ex.storeX Ex.snapPreX
 
 end Melda.Props.C12c
